@@ -491,7 +491,7 @@ def custom_network_roundtrip(R, models):
     from flow import backward
     from rules import PL
     F = R.F
-    convs = [b for b in F.bodies.values() if b.crate == "antnode" and any(c["ncallee"] == "evmlib::Network::new_custom" for c in b.calls)]
+    convs = [b for b in F.bodies.values() if b.crate == "antnode" and any(c["ncallee"] == "evmlib::Network::new_custom" for c in b.calls_raw)]
     if len(convs) != 1:
         R.viol("C20.custom", "anchor-missing:new_custom-caller", "expected exactly one place in antnode turning the evm-custom subcommand into a Network (found %d)" % len(convs))
         return
@@ -575,7 +575,7 @@ def network_id_first(R):
     prep(main)
     g = cfg_of(main)
     # bodies that (transitively) read a version lazy
-    readers = {b.npath for b in F.bodies.values() if any(VERSION_LAZY.match(c["ncallee"] or "") for c in b.calls)}
+    readers = {b.npath for b in F.bodies.values() if any(VERSION_LAZY.match(c["ncallee"] or "") for c in b.calls_raw)}
     readers.discard("ant_protocol::version::set_network_id")
     callers = F.callers()
     todo = list(readers)
